@@ -64,8 +64,8 @@ type wantMsg struct {
 
 const (
 	userToken  = "dXNlcjpwYXNz" // user:pass
-	hostA      = "origin-a.test"
-	hostB      = "origin-b.test:8080"
+	hostA      = "origin-a.test:8080"
+	hostB      = "origin-b.test"
 	hostOther  = "elsewhere.test"
 	literal407 = "HTTP/1.1 407 Proxy Authentication Required\r\nProxy-Authenticate: Basic realm=\"shadowsocks-go\", charset=\"UTF-8\"\r\n\r\n"
 	literal400 = "HTTP/1.1 400 Bad Request\r\nConnection: close\r\n\r\n"
@@ -83,7 +83,7 @@ var reqE2E = [][]field{
 	{{"X-Multi", "one"}, {"X-Multi", "two, three"}, {"X-Multi", "four"}},
 	{{"Cache-Control", "no-cache"}},
 	{{"If-None-Match", "\"abc\", W/\"def\""}},
-	{{"Referer", "http://origin-a.test/prev?x=1"}},
+	{{"Referer", "http://origin-a.test:8080/prev?x=1"}},
 	{{"X-Forwarded-For", "192.0.2.7"}},
 	{{"Via", "1.1 upstream-proxy"}},
 	{{"Accept-Language", "de-CH, en;q=0.7"}},
@@ -268,9 +268,12 @@ func renderReq(r *rand.Rand, a absReq, idx int, authOn bool) ([]byte, *wantMsg) 
 	w.host = host
 	l := &lines{r: r}
 	if a.M == "CONNECT" {
-		target := "origin-b.test:443"
+		// a CONNECT to host "a" names exactly the authority of the plain requests to "a"
+		target := host
 		if a.H == "" {
 			target = "badtarget-" + w.marker
+		} else if !strings.Contains(target, ":") {
+			target += ":443"
 		}
 		fmt.Fprintf(&b, "CONNECT %s HTTP/1.1\r\n", target)
 		l.add("Host", target)
